@@ -33,10 +33,15 @@ def _try_around(fa: FA, node):
     return out
 
 
-def check_write_order(ck):
-    R = "C08.R1"
+def check_write_order(ck, R="C08.R1", only_output=False):
     ck.rule(R, "write order: result data is stored before its key is recorded and before the memento is written; "
-               "the object file is written and closed before the pointer is published; directories exist before the open", 6)
+               "the object file is written and closed before the pointer is published; directories exist before the open", 3 if only_output else 6)
+    if not only_output:
+        _memoize_order(ck, R)
+    _output_order(ck, R)
+
+
+def _memoize_order(ck, R):
     mz = FA(ck, "storage_base.StorageBackendBase.memoize")
     st = [c for c in mz.calls("store") if A.dotted(A.call_recv(c)) == "self.codec"]
     pm = [c for c in mz.calls("put_memento")]
@@ -54,6 +59,9 @@ def check_write_order(ck):
     late = [c for c in st if set(mz.nodes(c)) & after]
     ck.ob(R, mz.key(None, "metadata-last"), not late, "nothing is stored after the memento is published" if not late else
           "result data is (re)written after the memento was published", mz.where())
+
+
+def _output_order(ck, R):
     fo = FA(ck, FSDS + ".output")
     mk = [c for c in fo.calls("makedirs")] + [c for c in fo.calls("mkdir")]
     wopen = [c for c in fo.calls("open") if c in ck.cg.fs_write_sites.get(fo.qual, [])]
